@@ -10,8 +10,7 @@ def kind? : SX → Option Kind
   | .atom "td" => some .td | .atom "ms" => some .ms | _ => none
 
 def nullsrc? : SX → Option NullSrc
-  | .atom "js-no" => some .jsNo | .atom "js-typelist" => some .jsTypelist | .atom "oa-no" => some .oaNo
-  | .atom "oa-flag" => some .oaFlag | .atom "oa-typelist" => some .oaTypelist | _ => none
+  | .atom "no" => some .no | .atom "typelist" => some .typelist | .atom "flag" => some .flag | _ => none
 
 def dflt? : SX → Option Dflt
   | .atom "none" => some .none | .atom "null" => some .null | .atom "falsy" => some .falsy
@@ -23,7 +22,7 @@ def ty? : SX → Option Ty
 
 def opts? : SX → Option Opts
   | .atom s => match s.toList.map (· == '1') with
-    | [sn, ud, fo, sd, kw, an, fc] => if s.toList.all (fun c => c == '0' || c == '1') then some ⟨sn, ud, fo, sd, kw, an, fc⟩ else none
+    | [sn, ud, fo, sd, an, fc] => if s.toList.all (fun c => c == '0' || c == '1') then some ⟨sn, ud, fo, sd, an, fc⟩ else none
     | _ => none
   | _ => none
 
@@ -43,8 +42,7 @@ def asgStr : Asg → String
   | .none => "none"
   | .lit d => "lit:" ++ dv d
   | .fieldReq => "Field:req"
-  | .fieldPos d => "Field:" ++ dv d
-  | .fieldKw d => "Field:kw" ++ dv d
+  | .fieldDflt d => "Field:" ++ dv d
   | .fieldNoDefault => "Field:nodefault"
   | .factory d => "field:factory:" ++ dv d
 
